@@ -5,6 +5,7 @@ import ShkModel.Driver.C06
 import ShkModel.Driver.Aud
 import ShkModel.Driver.C02
 import ShkModel.Driver.C03
+import ShkModel.Driver.C04
 import ShkModel.Driver.C08
 import ShkModel.Driver.C11
 /-! `shkdrv`: the executable model driver.  One request per line
@@ -21,6 +22,7 @@ def dispatch (line : String) : String :=
   | "AUD" :: rest => Aud.handle rest
   | "C02" :: rest => C02.handle rest
   | "C03" :: rest => C03.handle rest
+  | "C04" :: rest => C04.handle rest
   | "C08" :: rest => C08.handle rest
   | "C11" :: rest => C11.handle rest
   | _ => "bad-op"
